@@ -18,6 +18,7 @@ import (
 	"sync"
 	"sync/atomic"
 	"time"
+	"unsafe"
 	_ "unsafe" // go:linkname
 
 	"tunnox-core/internal/client"
@@ -318,8 +319,33 @@ func (w *cworld) rdRelease() {
 	}
 }
 
+// loopRunning: is the client's read loop alive? Older trees keep a flag (readLoopRunning); since the loops are bound to
+// their connection (X05-1) there is no flag any more and the goroutine itself is looked for: its entry frame carries the
+// client as receiver, `client.(*TunnoxClient).readLoop(0x<client>, ...`.
 func (w *cworld) loopRunning() bool {
-	return field(w.cl, "readLoopRunning").Addr().Interface().(*atomic.Bool).Load()
+	if f, ok := fieldOpt(w.cl, "readLoopRunning"); ok {
+		return f.Addr().Interface().(*atomic.Bool).Load()
+	}
+	return strings.Contains(allStacks(), fmt.Sprintf("client.(*TunnoxClient).readLoop(0x%x", uintptr(unsafe.Pointer(w.cl))))
+}
+
+var (
+	stackMu   sync.Mutex
+	stackAt   time.Time
+	stackSnap string
+)
+
+// allStacks returns a dump of all goroutine stacks that is at most 3 ms old (shared by the parallel worlds).
+func allStacks() string {
+	stackMu.Lock()
+	defer stackMu.Unlock()
+	if time.Since(stackAt) < 3*time.Millisecond && stackSnap != "" {
+		return stackSnap
+	}
+	buf := make([]byte, 4<<20)
+	n := runtime.Stack(buf, true)
+	stackSnap, stackAt = string(buf[:n]), time.Now()
+	return stackSnap
 }
 
 // rdState: found | checked (parked at that yield point), idle (blocked in its read, nothing buffered),
